@@ -57,6 +57,15 @@ os_free(os_ep *o)
 	memset(o, 0, sizeof *o);
 }
 
+/* makes the OpenSSL server acknowledge the server name (empty server_name extension in its ServerHello, ahead of
+   the other extensions): what servers with virtual hosts do */
+static int
+os_sni_cb(SSL *ssl, int *al, void *arg)
+{
+	(void)ssl; (void)al; (void)arg;
+	return SSL_TLSEXT_ERR_OK;
+}
+
 static int
 os_start(os_ep *o, int is_server, unsigned version, uint16_t suite, int keykind, int cauth, int chain_kind)
 {
@@ -77,7 +86,8 @@ os_start(os_ep *o, int is_server, unsigned version, uint16_t suite, int keykind,
 	SSL_CTX_set_max_proto_version(o->ctx, (int)version);
 	SSL_CTX_set_options(o->ctx, SSL_OP_NO_TICKET);
 	SSL_CTX_set_session_cache_mode(o->ctx, SSL_SESS_CACHE_OFF);
-	SSL_CTX_set_mode(o->ctx, SSL_MODE_NO_AUTO_CHAIN);   /* send the configured chain, not one completed from the verification store */
+	SSL_CTX_set_mode(o->ctx, SSL_MODE_NO_AUTO_CHAIN);
+	if (is_server && (chain_kind & 1)) SSL_CTX_set_tlsext_servername_callback(o->ctx, os_sni_cb);   /* send the configured chain, not one completed from the verification store */
 	o->ssl = SSL_new(o->ctx);
 	id[0] = (unsigned char)(suite >> 8); id[1] = (unsigned char)suite;
 	ci = SSL_CIPHER_find(o->ssl, id);
